@@ -236,6 +236,7 @@ structure VState where
 inductive Step where
   | cont (s : VState)
   | stop (r : Res)
+  deriving Repr, DecidableEq
 
 def count1 (C : Crypto) (cd : CD) (step total : Nat) (st : VState) (val : Val) (mk : Nat) (v : Vote) : Step :=
   match sortitionOK C mk cd.seed step cd.payload.index v.proof v.votes cd.t val.stake total with
